@@ -776,18 +776,16 @@ theorem cgRun_orthogonality (h : SPD A dot) (tol : ℝ) (htol : 0 ≤ tol) :
 theorem cgRun_divisors (h : SPD A dot) (tol : ℝ) (htol : 0 ≤ tol) (k : ℕ) (sk : CGState ℝ V)
     (hk : cgRun o b x0 tol k = some sk) :
     0 < sk.rho1 ∧
-    (∀ s', cgRun o b x0 tol k = some s' → ∀ s'', cgRun o b x0 tol (k + 1) = some s'' →
-      s''.rho1 = dot s'.r s'.r) ∧
+    (∀ s', cgRun o b x0 tol (k + 1) = some s' → s'.rho1 = dot sk.r sk.r) ∧
     cgDir o (k + 1) sk.r sk.p (dot sk.r sk.r) sk.rho1 ≠ 0 ∧
     0 < dot (cgDir o (k + 1) sk.r sk.p (dot sk.r sk.r) sk.rho1)
           (A (cgDir o (k + 1) sk.r sk.p (dot sk.r sk.r) sk.rho1)) := by
   obtain ⟨ek, hne, hinv⟩ := cgRun_inv At b x0 h tol htol k sk hk
   subst ek
   refine ⟨rho1_pos At b x0 h k (fun j hj => hne j (by omega)), ?_, ?_⟩
-  · intro s' hs' s'' hs''
-    obtain ⟨e', _, _⟩ := cgRun_inv At b x0 h tol htol k s' hs'
-    obtain ⟨e'', _, _⟩ := cgRun_inv At b x0 h tol htol (k + 1) s'' hs''
-    subst e' e''
+  · intro s' hs'
+    obtain ⟨e', _, _⟩ := cgRun_inv At b x0 h tol htol (k + 1) s' hs'
+    subst e'
     rfl
   · exact next_dir_pos At b x0 h k hne
 
